@@ -235,6 +235,7 @@ func family(r *ev.Run, nmax int) int {
 }
 
 func main() {
+	ev.GuardFor("C16")
 	r := ev.Start("C16")
 	n := ev.Pick(r, 5, 9)
 	rq := seqmc.Explore(r, seqmc.Config{Name: "queue", New: func() seqmc.Sys { return &qh{n: n, q: &lists.Queue[int]{}} }})
